@@ -2,6 +2,7 @@ package pbar
 
 import (
 	"io"
+	"sync"
 
 	"github.com/vbauerster/mpb/v8"
 )
@@ -33,6 +34,7 @@ func NewNoopBar() Bar {
 }
 
 type bar struct {
+	once  sync.Once
 	b     *mpb.Bar
 	c     *Container
 	total int64
@@ -50,11 +52,11 @@ func newBar(c *Container, total int64, name string, unit int) *bar {
 }
 
 func (b *bar) ensureInternalBar() {
-	if b.b != nil {
-		return
-	}
-	b.c.ensureProgress()
-	b.b = b.c.addBar(b.total, b.name, b.unit)
+	// several inserter workers share one bar: create the internal bar exactly once
+	b.once.Do(func() {
+		b.c.ensureProgress()
+		b.b = b.c.addBar(b.total, b.name, b.unit)
+	})
 }
 
 func (b *bar) Incr() {
